@@ -476,17 +476,7 @@ func c11(c *Ctx) {
 					}
 				}
 				// the len() must be of awaitingEvents[src] (possibly via the local queue)
-				okE = false
-				for _, cd := range condsFor(cl.Block()) {
-					cd = normCond(cd)
-					if b := asBinOp(cd.V, token.EQL); b != nil && cd.Sense {
-						if z, isC := constInt(b.Y); isC && z == 0 {
-							if lc, ok := b.X.(*ssa.Call); ok && isCall(lc, "builtin len") && strings.Contains(pathOf(lc.Call.Args[0]), "awaitingEvents[") {
-								okE = true
-							}
-						}
-					}
-				}
+				okE = knownEmpty(factsAt(cl.Block()), func(v ssa.Value) bool { return strings.Contains(pathOf(v), "awaitingEvents[") })
 				r.Check("lookup:"+FuncName(fn)+":no-events-parked", okE, cl.Pos(), "guard: "+cs)
 				r.Check("lookup:"+FuncName(fn)+":no-metrics-parked", okM, cl.Pos(), "guard: "+cs)
 			}
@@ -1104,6 +1094,8 @@ func cloudReleaseRule(c *Ctx, r *Rule, hi *ssa.Function, fns map[string]*ssa.Fun
 			r.Check("release:"+kind.field+":deleted-with-release", del != nil && del.Block() == g.Block(), g.Pos(), "the entry is deleted in the same branch that starts the goroutine")
 			// guard: non-nil / non-empty
 			guard := strings.Join(condStrings(g.Block()), " && ")
-			r.Check("release:"+kind.field+":guard", strings.Contains(guard, "=true") && len(condsFor(g.Block())) == 1, g.Pos(), "released under exactly one condition (something is parked): "+guard)
+			fs := factsAt(g.Block())
+			isParked := func(v ssa.Value) bool { return v == ssa.Value(lk) }
+			r.Check("release:"+kind.field+":guard", len(fs) == 1 && (knownNonNil(fs, isParked) || knownNonEmpty(fs, isParked)), g.Pos(), "released under exactly one condition (something is parked): "+guard)
 		}
 }
